@@ -170,7 +170,7 @@ def emit(tr):
         else:
             L.append('Definition %s_sets : list (Q * Q) := [%s].' % (nm, '; '.join('(%s, %s)' % (qlit(sets[n][3]), qlit(sets[n][4])) for n in names)))
         L.append('(* one step: (index of the propagator set, true = even bonds 0,2,.. / false = odd bonds 1,3,..) *)')
-        L.append('Definition %s_stages : list (nat * bool) := [%s].' % (nm, '; '.join('(%d, %s)' % (names.index(k), 'true' if st == 0 else 'false') for k, st in stages)))
+        L.append('Definition %s_stages : list (nat * bool) := [%s].' % (nm, '; '.join('(%d%%nat, %s)' % (names.index(k), 'true' if st == 0 else 'false') for k, st in stages)))
         L.append('')
     return '\n'.join(L)
 
